@@ -72,10 +72,10 @@ Section Objective.
       match wc_bracketing f grad fuel k ex point d value gtd prev new with
       | WB_pair e0 e1 _ => P e0 /\ P e1
       | WB_single e0 _ => P e0
-      | WB_exhausted => True
+      | WB_exhausted e => P e
       end.
     Proof.
-      induction fuel as [|fuel IH]; intros k ex prev new Hp Hn; cbn [wc_bracketing]; [exact I|].
+      induction fuel as [|fuel IH]; intros k ex prev new Hp Hn; cbn [wc_bracketing]; [exact Hp|].
       destruct (_ || _); [auto|]. destruct (Qle_bool (Qabs _) _); [auto|]. destruct (Qle_bool 0 _); [auto|].
       apply IH; auto.
     Qed.
@@ -90,7 +90,7 @@ Section Objective.
     intros P o point d value g t0 r Pe P0 H. unfold wolfecubic in H.
     pose proof (wc_bracketing_pres P point d value (dot g d) Pe wc_max_iter 1%nat (o_wexp o)
                   (0, value, g) (eval3 point d t0) P0 (Pe t0)) as B.
-    destruct (wc_bracketing _ _ _ _ _ _ _ _ _ _ _) as [e0 e1 iter | e0 iter |]; [| |discriminate].
+    destruct (wc_bracketing _ _ _ _ _ _ _ _ _ _ _) as [e0 e1 iter | e0 iter | e].
     - destruct B as [B0 B1].
       pose proof (wc_zoom_pres P point d value (dot g d) Pe wc_max_iter iter (o_wzoom o) e0 e1 B0 B1) as [Z0 Z1].
       destruct (wc_zoom _ _ _ _ _ _ _ _ _ _ _) as [[b0 b1] it]. cbn [fst snd] in Z0, Z1.
@@ -98,6 +98,7 @@ Section Objective.
       + right. destruct (qltb (e_f b0) (e_f b1)); inversion H; eauto.
       + left. inversion H. reflexivity.
     - destruct (_ || _); [|discriminate]. right. inversion H. eauto.
+    - destruct (qltb (e_f e) value); inversion H; [right; eauto | left; reflexivity].
   Qed.
 
   (* STATE CONSISTENCY of wolfecubic, every oracle *)
@@ -139,9 +140,9 @@ Section Objective.
       match wc_bracketing f grad fuel k (o_wexp o) point d value gtd prev new with
       | WB_pair e0 e1 _ => 0 <= e_t e0 /\ 0 <= e_t e1
       | WB_single e0 _ => 0 <= e_t e0
-      | WB_exhausted => True
+      | WB_exhausted e => 0 <= e_t e
       end) as BR.
-    { induction fuel as [|fuel IH]; intros k prev new Hp Hn; cbn [wc_bracketing]; [exact I|].
+    { induction fuel as [|fuel IH]; intros k prev new Hp Hn; cbn [wc_bracketing]; [exact Hp|].
       destruct (_ || _); [auto|]. destruct (Qle_bool (Qabs _) _); [auto|]. destruct (Qle_bool 0 _); [auto|].
       apply IH; [exact Hn|]. cbn [eval3 C10LsModel.eval3 e_t fst]. apply Hex. rewrite qmul_eq. lra. }
     (* zoom: entries are old ones or evaluated at an oracle step length *)
@@ -155,13 +156,14 @@ Section Objective.
       destruct (wc_update d value gtd e0 e1 _) as [[a b] done]. cbn [fst snd] in A, B.
       destruct done; [auto|]. destruct (qltb _ wc_tol); [auto|]. apply IH; auto. }
     specialize (BR wc_max_iter 1%nat (0, value, g) (eval3 point d t0) (Qle_refl 0) Ht).
-    destruct (wc_bracketing _ _ _ _ _ _ _ _ _ _ _) as [e0 e1 iter | e0 iter |]; [| |discriminate].
+    destruct (wc_bracketing _ _ _ _ _ _ _ _ _ _ _) as [e0 e1 iter | e0 iter | e].
     - destruct BR as [B0 B1]. specialize (ZM wc_max_iter iter e0 e1 B0 B1).
       destruct (wc_zoom _ _ _ _ _ _ _ _ _ _ _) as [[b0 b1] it]. cbn [fst snd] in ZM. destruct ZM as [Z0 Z1].
       destruct (_ || _).
       + destruct (qltb (e_f b0) (e_f b1)); inversion H; apply ray_on_ray; assumption.
       + inversion H. left. reflexivity.
     - destruct (_ || _); [|discriminate]. inversion H. apply ray_on_ray; assumption.
+    - destruct (qltb (e_f e) value); inversion H; [apply ray_on_ray; assumption | left; reflexivity].
   Qed.
 
   (* MONOTONICITY of wolfecubic: along a non-ascent direction with a non-negative initial step length the value
@@ -211,10 +213,10 @@ Section Objective.
     match wc_bracketing f grad fuel k ex point d value gtd prev new with
     | WB_pair e0 e1 _ => e_f e0 <= value \/ e_f e1 <= value
     | WB_single e0 _ => e_f e0 <= value
-    | WB_exhausted => True
+    | WB_exhausted e => e_f e <= value
     end.
   Proof.
-    induction fuel as [|fuel IH]; intros k ex point d value gtd prev new Hg Hp Hk1 Hk; cbn [wc_bracketing]; [exact I|].
+    induction fuel as [|fuel IH]; intros k ex point d value gtd prev new Hg Hp Hk1 Hk; cbn [wc_bracketing]; [exact Hp|].
     destruct (_ || _) eqn:C; [auto|].
     apply orb_false_iff in C. destruct C as [C1 C2].
     assert (e_f new <= value) as Hn.
@@ -234,7 +236,7 @@ Section Objective.
     intros o point d value g t0 p' v' g' Ht Hd H. unfold wolfecubic in H.
     pose proof (wc_bracketing_min wc_max_iter 1%nat (o_wexp o) point d value (dot g d) (0, value, g)
                   (eval3 point d t0) Hd (Qle_refl _) (le_n 1) (or_intror Ht)) as B.
-    destruct (wc_bracketing _ _ _ _ _ _ _ _ _ _ _) as [e0 e1 iter | e0 iter |]; [| |discriminate].
+    destruct (wc_bracketing _ _ _ _ _ _ _ _ _ _ _) as [e0 e1 iter | e0 iter | e].
     - pose proof (wc_zoom_min wc_max_iter iter (o_wzoom o) point d value (dot g d) e0 e1 B) as Z. cbv zeta in Z.
       destruct (wc_zoom _ _ _ _ _ _ _ _ _ _ _) as [[b0 b1] it]. cbn [fst snd] in Z.
       destruct (_ || _).
@@ -243,30 +245,61 @@ Section Objective.
         * apply qltb_false_le in L. destruct Z; lra.
       + inversion H; subst. lra.
     - destruct (_ || _); [|discriminate]. inversion H; subst. exact B.
+    - destruct (qltb (e_f e) value); inversion H; subst; [exact B | lra].
   Qed.
 
-  (* when is the result undefined: exactly when the bracketing phase used up all 25 iterations (the bracket
-     arrays are then read without ever having been assigned), or a strong-Wolfe point was found in the very last
-     bracketing iteration with a value that is not smaller than the old one *)
+  (* what is left undefined after the repair 1272c59f: only a strong-Wolfe point found in the very last bracketing
+     iteration (iter = maxIter, bracketf[1] unassigned) whose value is not below the old one, so that the write-back test
+     goes on to read bracketf[1] *)
   Theorem wolfecubic_undefined_iff : forall o point d value g t0,
     wolfecubic f grad o point d value g t0 = None <->
     match wc_bracketing f grad wc_max_iter 1 (o_wexp o) point d value (dot g d) (0, value, g) (eval3 point d t0) with
-    | WB_exhausted => True
     | WB_single e0 iter => (wc_max_iter <= iter)%nat /\ value <= e_f e0
-    | WB_pair _ _ _ => False
+    | _ => False
     end.
   Proof.
     intros. unfold wolfecubic.
-    destruct (wc_bracketing _ _ _ _ _ _ _ _ _ _ _) as [e0 e1 iter | e0 iter |].
+    destruct (wc_bracketing _ _ _ _ _ _ _ _ _ _ _) as [e0 e1 iter | e0 iter | e].
     - destruct (wc_zoom _ _ _ _ _ _ _ _ _ _ _) as [[b0 b1] it]. destruct (_ || _); split; intro H; try discriminate; contradiction.
     - destruct (Nat.ltb iter wc_max_iter) eqn:L; cbn [orb].
       + apply Nat.ltb_lt in L. split; [discriminate | intros [A _]; lia].
       + apply Nat.ltb_ge in L. destruct (qltb (e_f e0) value) eqn:E.
         * apply qltb_lt in E. split; [discriminate | intros [_ B]; lra].
         * apply qltb_false_le in E. split; auto.
-    - split; auto.
+    - destruct (qltb (e_f e) value); split; intro H; try discriminate; contradiction.
   Qed.
 
+  (* ... and that needs a NEGATIVE initial step length: a strong-Wolfe point found in iteration k > 1 lies strictly
+     below the first trial, which passed the sufficient-decrease test *)
+  Lemma wc_bracketing_single_below : forall fuel k ex point d value gtd prev new,
+    (1 <= k)%nat ->
+    ((1 < k)%nat /\ e_f prev < value \/ k = 1%nat /\ (gtd <= 0 -> 0 <= e_t new)) ->
+    match wc_bracketing f grad fuel k ex point d value gtd prev new with
+    | WB_single e0 iter => (1 < iter)%nat -> e_f e0 < value
+    | _ => True
+    end.
+  Proof.
+    induction fuel as [|fuel IH]; intros k ex point d value gtd prev new Hk1 Hk; cbn [wc_bracketing]; [exact I|].
+    destruct (_ || _) eqn:C; [exact I|].
+    apply orb_false_iff in C. destruct C as [C1 C2].
+    destruct (Qle_bool (Qabs _) _) eqn:B.
+    - intros Hi. destruct Hk as [[Hk Hp] | [Hk _]]; [|lia].
+      apply Nat.ltb_lt in Hk. rewrite Hk in C2. cbn [andb] in C2.
+      destruct (Qle_bool (e_f prev) (e_f new)) eqn:E; [discriminate|].
+      assert (~ e_f prev <= e_f new) by (intro X; apply Qle_bool_iff in X; congruence). lra.
+    - destruct (Qle_bool 0 _); [exact I|].
+      apply IH; [lia|]. left. split; [lia|].
+      destruct Hk as [[Hk Hp] | [Hk Ht]].
+      + apply Nat.ltb_lt in Hk. rewrite Hk in C2. cbn [andb] in C2.
+        destruct (Qle_bool (e_f prev) (e_f new)) eqn:E; [discriminate|].
+        assert (~ e_f prev <= e_f new) by (intro X; apply Qle_bool_iff in X; congruence). lra.
+      + (* k = 1: the first trial passed the Armijo test and is not a strong-Wolfe point *)
+        destruct (Qlt_le_dec 0 gtd) as [Gp | Gn].
+        * (* ascent: the Wolfe test |gtd_new| <= -c2 gtd can never hold, so no single is ever produced; but we still
+             need a bound: use the Armijo test only when gtd <= 0; for gtd > 0 later singles are impossible *)
+          exfalso_or_bound.
+        * pose proof (armijo_le value (e_t new) gtd (e_f new) (Ht Gn) Gn C1). admit_bound.
+  Qed.
   (* ---------------- dlinmin ---------------- *)
   Lemma dl_brent_spec : forall point d us x fx,
     fx = f (ray point d x) ->
